@@ -309,7 +309,7 @@ pub fn super_blitter_sym(x: i32, y: i32, width: i32, height: i32) -> MaskSuperBl
 }
 
 // ---------------------------------------------------------------- premultiplied-alpha validity of the kernels (C18 #1-#3)
-// @ob id=K.pm_sources props=C18,C19 kind=complete tier=quick timeout=900 fns=sw_composite::alpha_mul,SolidSource::from_unpremultiplied_argb,SolidSource::from
+// @ob id=K.pm_sources props=C18,C19 kind=complete tier=quick timeout=900 fns=sw_composite::alpha_mul,SolidSource::from_unpremultiplied_argb,SolidSource::from,Source::from
 // @+ desc="alpha_mul(p, a256) keeps r,g,b <= a for a256 in [1,256]; SolidSource::from_unpremultiplied_argb and From<Color> produce r,g,b <= a for every a,r,g,b"
 #[kani::proof]
 fn k_pm_sources() {
@@ -322,6 +322,8 @@ fn k_pm_sources() {
     assert!(s.r <= s.a && s.g <= s.a && s.b <= s.a && s.a == ca, "from_unpremultiplied_argb premultiplies");
     let s2 = crate::SolidSource::from(Color::new(ca, cr, cg, cb));
     assert!(s2 == s && pm(s2.to_u32()), "From<Color> premultiplies");
+    match Source::from(Color::new(ca, cr, cg, cb)) { Source::Solid(s3) => assert!(s3 == s, "Source::from(Color) premultiplies the same way"), _ => assert!(false, "Source::from(Color) is a solid source") }
+    match Source::from(s) { Source::Solid(s4) => assert!(s4 == s, "Source::from(SolidSource) keeps the colour"), _ => assert!(false, "solid") }
     assert!(s.to_u32() == ((s.a as u32) << 24) | ((s.r as u32) << 16) | ((s.g as u32) << 8) | (s.b as u32), "to_u32 packs (A<<24)|(R<<16)|(G<<8)|B");
     kani::cover!(ca == 128 && cr == 255);
 }
